@@ -183,16 +183,18 @@ impl<T> RcInner<T> {
 
     #[inline]
     pub(crate) fn increment_strong(&self) -> bool {
-        let val = State::from_raw(self.state.fetch_add(COUNT, Ordering::SeqCst));
-        if val.destructed() {
-            return false;
+        loop {
+            let val = State::from_raw(self.state.fetch_add(COUNT, Ordering::SeqCst));
+            if val.destructed() {
+                return false;
+            }
+            if val.strong() != 0 {
+                return true;
+            }
+            // The previous fetch_add only created a permission to run decrement again.
+            // Retry to create an actual reference: the pending `try_destruct` may consume that
+            // permission at any time, so the count must be observed non-zero by the increment.
         }
-        if val.strong() == 0 {
-            // The previous fetch_add created a permission to run decrement again.
-            // Now create an actual reference.
-            self.state.fetch_add(COUNT, Ordering::SeqCst);
-        }
-        true
     }
 
     #[inline]
